@@ -231,6 +231,7 @@ nni_aio_stop(nni_aio *aio)
 			fn(aio, arg, NNG_ESTOPPED);
 		}
 
+		NNI_VERIF_TRACE("aio", aio, "stop_wait", NULL);
 		nni_aio_wait(aio);
 		NNI_VERIF_TRACE("aio", aio, "stop_ret", NULL);
 	}
